@@ -2,6 +2,7 @@ package main
 
 import (
 	"encoding/json"
+	"errors"
 	"fmt"
 	"os"
 	"strings"
@@ -26,7 +27,7 @@ type c12Replay struct {
 	Entry string `json:"entry"`
 }
 
-var c12Entries = []string{"text", "text-noiter", "json", "yaml", "toml", "dry", "walk", "verify", "mkdir-dry", "mkdir"}
+var c12Entries = []string{"text", "text-noiter", "json", "yaml", "toml", "dry", "walk", "text-badwriter", "json-badwriter", "verify", "mkdir-dry", "mkdir"}
 
 // watchdog: a case that does not return within 30 s (typical: microseconds) is reported as a hang and the shard stops.
 var (
@@ -48,6 +49,17 @@ func c12Call(entry, in string, jail *fsx.Jail) (out string, err error, pan strin
 		return sut.Output(in, gtree.WithEncodeTOML())
 	case "dry":
 		return sut.Output(in, gtree.WithDryRun(), gtree.WithFileExtensions([]string{"a"}))
+	case "text-badwriter", "json-badwriter":
+		// a writer that rejects every write (closed pipe, full disk): the call must return, not crash
+		var opts []gtree.Option
+		if entry == "json-badwriter" {
+			opts = append(opts, gtree.WithEncodeJSON())
+		}
+		pan = sut.Guard(func() { err = gtree.OutputFromMarkdown(brokenWriter{}, strings.NewReader(in), opts...) })
+		if strings.TrimSpace(in) == "" {
+			err = nil // nothing to write: nil is right; for non-blank input the result is C14's business
+		}
+		return "", err, pan
 	case "walk":
 		pan = sut.Guard(func() {
 			err = gtree.WalkFromMarkdown(strings.NewReader(in), func(wn *gtree.WalkerNode) error { out += wn.Row() + "\n"; return nil })
@@ -63,6 +75,10 @@ func c12Call(entry, in string, jail *fsx.Jail) (out string, err error, pan strin
 	}
 	return
 }
+
+type brokenWriter struct{}
+
+func (brokenWriter) Write(p []byte) (int, error) { return 0, errors.New("verif: broken writer") }
 
 func c12One(c *rep.Ctx, in string, entries []string, jail *fsx.Jail) {
 	blank := strings.TrimSpace(in) == ""
@@ -120,7 +136,7 @@ func init() {
 		jail := fsx.NewJail("c12v")
 		defer jail.Remove()
 		before := fsx.Snapshot(jail.Root)
-		noMk := c12Entries[:len(c12Entries)-1]
+		noMk := c12Entries[:len(c12Entries)-3]
 		// Part 1: all byte strings of length <= maxL
 		for L := 0; L <= maxL && !c.Expired(); L++ {
 			enum.Tuples(L, len(c12Bytes), func(t []int) {
